@@ -232,17 +232,27 @@ def r1(ctx, cf):
                 if o.loopctl != "continue" and not o.done:
                     problems.append("for i == j the body does not move on to the next query atom")
                 continue
-            flags = [(c, p_) for c, p_ in cv if "B[" in c and "<" not in c.split("B[")[0][-3:] and not re.match(r"^\(.*<.*\)$", c)]
-            kind = "plain" if mode == "nobox" else ("tri" if any(p_ for c, p_ in flags) else "rect")
-            seen_kinds.add(kind)
-            want_d, want_d2 = spec(ex, kind)
+            # the final test of the path, decoded from its value: |delta|^2 < cutoff^2 (taken) or its negation in whatever spelling, with delta wrapped the
+            # triclinic way, the rectangular way or not at all - the path tells which by the value it compares
+            from ..symval import elementary_facts, has_fact
             lc = last_cmp(o.cvals)
-            want_cut = _canon(sym("cutoff") * sym("cutoff"))
-            if lc is None or lc[1] != want_cut or lc[0] != _canon(want_d2):
+            lastf = elementary_facts(ex, o.cexprs[-1][0] if o.cexprs[-1][0] is not None else o.cvals[-1][0], o.cexprs[-1][1]) if o.cexprs else []
+            within, kind = None, ("plain" if mode == "nobox" else "tri")
+            for kind_ in (("plain",) if mode == "nobox" else ("tri", "rect")):
+                want_d, want_d2 = spec(ex, kind_)
+                dd = want_d2 - sym("cutoff") * sym("cutoff")
+                if has_fact(lastf, "<", dd):
+                    within, kind = True, kind_
+                    break
+                if has_fact(lastf, "<=", Rat(Poly.const(0)) - dd):
+                    within, kind = False, kind_
+                    break
+            if within is not None:
+                seen_kinds.add(kind)
+            if within is None:
                 problems.append("%s cell: the quantity compared with cutoff^2 is not |x_i - x_j%s|^2 (%s)" % (
                     {"plain": "no", "rect": "rectangular", "tri": "triclinic"}[kind], "" if kind == "plain" else " wrapped", (lc[0][:80] + " < " + lc[1][:30]) if lc else "no `<` test"))
                 continue
-            within = o.cvals[-1][1]
             rec = [p_ for p_ in pushed if tuple(p_[1]) == tuple(o.cvals)]
             if within:
                 if not rec or any(len(r_[2]) != 1 or r_[2][0] != i for r_ in rec):
